@@ -237,61 +237,21 @@ impl Worker {
                 log::debug!(target: "worker", "Worker processing incoming fetch for {remote} on stream {stream}..");
 
                 let timeout = channels.timeout();
-                let (mut stream_r, stream_w) = channels.split();
-                let header = match upload_pack::pktline::git_request(&mut stream_r) {
-                    Ok(header) => header,
-                    Err(e) => {
-                        return FetchResult::Responder {
-                            rid: None,
-                            result: Err(e.into()),
-                        }
-                    }
-                };
-                log::debug!(target: "worker", "Spawning upload-pack process for {} on stream {stream}..", header.repo);
-
-                if let Err(e) = self.is_authorized(remote, header.repo) {
-                    return FetchResult::Responder {
-                        rid: Some(header.repo),
-                        result: Err(e),
-                    };
-                }
-
-                let result = upload_pack::upload_pack(
+                let (stream_r, stream_w) = channels.split();
+                let result = respond(
                     &self.nid,
-                    remote,
                     &self.storage,
+                    &self.policies,
+                    remote,
                     &emitter,
-                    &header,
                     stream_r,
                     stream_w,
                     timeout,
-                )
-                .map(|_| ())
-                .map_err(|e| e.into());
-                log::debug!(target: "worker", "Upload process on stream {stream} exited with result {result:?}");
+                );
+                log::debug!(target: "worker", "Upload process on stream {stream} finished with result {result:?}");
 
-                FetchResult::Responder {
-                    rid: Some(header.repo),
-                    result,
-                }
+                result
             }
-        }
-    }
-
-    fn is_authorized(&self, remote: NodeId, rid: RepoId) -> Result<(), UploadError> {
-        let policy = self.policies.seed_policy(&rid)?.policy;
-        // Check policy first, since if we're blocking then we likely don't have
-        // the repository.
-        if policy.is_block() {
-            return Err(UploadError::Unauthorized(remote, rid));
-        }
-        let repo = self.storage.repository(rid)?;
-        let doc = repo.identity_doc()?;
-
-        if !doc.is_visible_to(&remote.into()) {
-            Err(UploadError::Unauthorized(remote, rid))
-        } else {
-            Ok(())
         }
     }
 
@@ -393,5 +353,99 @@ impl Pool {
         log::debug!(target: "pool", "Worker pool shutting down..");
 
         Ok(())
+    }
+}
+
+/// Serve an incoming fetch request: read the request header from `stream_r`, check that
+/// `remote` may fetch the requested repository, and run `git upload-pack` between the two
+/// streams.
+fn respond<R, W>(
+    nid: &NodeId,
+    storage: &Storage,
+    policies: &policy::Config<policy::store::Read>,
+    remote: NodeId,
+    emitter: &Emitter<Event>,
+    mut stream_r: R,
+    stream_w: W,
+    timeout: std::time::Duration,
+) -> FetchResult
+where
+    R: io::Read + Send,
+    W: io::Write + Send,
+{
+    let header = match upload_pack::pktline::git_request(&mut stream_r) {
+        Ok(header) => header,
+        Err(e) => {
+            return FetchResult::Responder {
+                rid: None,
+                result: Err(e.into()),
+            }
+        }
+    };
+    log::debug!(target: "worker", "Spawning upload-pack process for {}..", header.repo);
+
+    if let Err(e) = is_authorized(storage, policies, remote, header.repo) {
+        return FetchResult::Responder {
+            rid: Some(header.repo),
+            result: Err(e),
+        };
+    }
+
+    let result = upload_pack::upload_pack(
+        nid, remote, storage, emitter, &header, stream_r, stream_w, timeout,
+    )
+    .map(|_| ())
+    .map_err(|e| e.into());
+
+    FetchResult::Responder {
+        rid: Some(header.repo),
+        result,
+    }
+}
+
+fn is_authorized(
+    storage: &Storage,
+    policies: &policy::Config<policy::store::Read>,
+    remote: NodeId,
+    rid: RepoId,
+) -> Result<(), UploadError> {
+    let policy = policies.seed_policy(&rid)?.policy;
+    // Check policy first, since if we're blocking then we likely don't have
+    // the repository.
+    if policy.is_block() {
+        return Err(UploadError::Unauthorized(remote, rid));
+    }
+    let repo = storage.repository(rid)?;
+    let doc = repo.identity_doc()?;
+
+    if !doc.is_visible_to(&remote.into()) {
+        Err(UploadError::Unauthorized(remote, rid))
+    } else {
+        Ok(())
+    }
+}
+
+#[cfg(feature = "verif")]
+pub mod verif {
+    //! Verification hook H2: the responder half of the worker over arbitrary streams.
+    use super::*;
+
+    pub fn respond<R, W>(
+        nid: &NodeId,
+        storage: &Storage,
+        policies: &policy::Config<policy::store::Read>,
+        remote: NodeId,
+        emitter: &Emitter<Event>,
+        stream_r: R,
+        stream_w: W,
+        timeout: std::time::Duration,
+    ) -> FetchResult
+    where
+        R: io::Read + Send,
+        W: io::Write + Send,
+    {
+        super::respond(
+            nid, storage, policies, remote, emitter, stream_r, stream_w, timeout,
+        )
     }
 }
